@@ -772,6 +772,7 @@ class C12Engine(object):
         self.stats = {"histories": 0, "runs": 0, "fs_ops": 0, "harness_errors": 0, "probes": {},
                       "violating_histories": 0, "workflow": {}, "ambiguous": {}}
         self.states = set()
+        self.run_log = []
         self.digests = set()
         self.samples = []
         self.failures = []
@@ -808,6 +809,7 @@ class C12Engine(object):
         for a in res.get("ambiguous", []):
             st["ambiguous"][a] = st["ambiguous"].get(a, 0) + 1
         self.digests.add(res["digest"])
+        self.run_log.append((spec.get("round", -1), spec.get("index", -1), res["digest"], len(res.get("violations", []))))
         # distinct non-trivial: a regeneration that had user-supplied state, by (library, workflow,
         # languages, multiset of op kinds before it)
         kinds = []
@@ -950,6 +952,7 @@ class C12Engine(object):
                           "actions against persistent files between regenerations",
             "libraries": len(self.libids),
             "distinct_event_logs": len(self.digests),
+            "run_digest": digest_obj(sorted(self.run_log)),
             "violating_histories": st["violating_histories"],
             "violation_classes": st.get("violation_classes", 0),
             "harness_errors": st["harness_errors"],
